@@ -35,7 +35,13 @@ def run(ctx, model_ok):
                             "separators of more than one character (the model's split/join take one character; magpylib uses '_' and '.')",
                             "copy independence in the CPython heap: for update_nested_dict modelled with addresses (theorem update_nested_sharing, stream compares id()), "
                             "for style objects oracle only",
-                            "enumeration-valued leaves (symbols, line styles) are sampled only through their defaults"]
+                            "enumeration-valued leaves (symbols, line styles) are sampled only through their defaults",
+                            "defaults.reset() restores every default, and sequences of updates AND resets: no model, no theorem (DESIGN §6 names `reset_restores`; it does not exist) — style oracle only",
+                            "'invalid names or values are rejected': only an `example` (one unknown property name -> AttributeError in mpUpdate); no theorem that every name outside the schema is rejected, "
+                            "value validation not modelled",
+                            "'styles of different objects are independent': no theorem (update_nested_sharing is about aliasing between the result and the argument of ONE update_nested_dict call)",
+                            "resolution_precedence is about the flat model Model/StyleTree.getStyle; nested_resolution_matches_flat links the nested model to it only at paths where the object's "
+                            "style already has a non-dict value and no keyword/default key is a proper prefix or extension of the path"]
 
 
 def replay(ctx, payload):
